@@ -20,7 +20,7 @@ from .. import tlc, trace
 from .. import c20_util as U
 from ..common import Verdict, SEED, SPEC
 
-ALL = '{"w", "s", "n", "h", "[", "]", ",", ":", "-", "q", "a", "d"}'
+ALL = '{"w", "s", "n", "h", "[", "]", ",", ":", "-", "q", "a", "d"}'          # ("r", the alias, is in anchors_str)
 BASE = dict(Block=4, MaxKey=4, MaxFlow=2, MaxCol=2, MaxRun=3, MaxLen=0, Stream='FALSE', Exact='FALSE', Variant='"code"', Sym=ALL)
 
 
@@ -33,6 +33,7 @@ def cfgd(**kw):
 # name -> (module, cfg, constants)
 DESIGN_QUICK = {
     'block_str':    ('Work', 'MC_Work.cfg', cfgd(MaxFlow=0, Sym='{"w", "s", "n", "-", ":", "h", "d", "a"}')),
+    'anchors_str':  ('Work', 'MC_Work.cfg', cfgd(MaxFlow=1, MaxCol=1, MaxRun=1, Sym='{"a", "r", "w", "[", ",", "]", "s", "n"}')),
     'scalars_str':  ('Work', 'MC_Work.cfg', cfgd(MaxFlow=0, MaxCol=1, Sym='{"w", "s", "n", "q", "h", ":", "d"}')),
     'flow_str':     ('Work', 'MC_Work.cfg', cfgd(MaxFlow=2, MaxCol=1, Sym='{"w", "n", "[", "]", ",", ":", "q"}', MaxRun=2)),
     'block_stream': ('Work', 'MC_Work.cfg', cfgd(Stream='TRUE', MaxFlow=0, MaxCol=1, Sym='{"w", "s", "n", ":", "-"}')),
@@ -47,7 +48,7 @@ DESIGN_QUICK = {
 DESIGN_THOROUGH = dict(DESIGN_QUICK)
 for _k in ('exact_flow', 'exact_anchors'):         # thorough only
     del DESIGN_QUICK[_k]
-NEGCTL_QUICK = ('nokeylimit_queue', 'concat', 'nobuftrim', 'reader_nobuftrim', 'emitter_lookahead')
+NEGCTL_QUICK = ('nokeylimit_queue', 'concat', 'nobuftrim', 'aliaswalk', 'reader_nobuftrim', 'emitter_lookahead')
 DESIGN_THOROUGH.update({
     'all_str':      ('Work', 'MC_Work.cfg', cfgd()),
     'flow_str3':    ('Work', 'MC_Work.cfg', cfgd(MaxFlow=2, MaxCol=1, Sym='{"w", "s", "n", "[", "]", ",", ":", "q"}')),
@@ -77,6 +78,7 @@ NEGCTL = {
     'nobuftrim':        ('Work', 'MC_Work_cost.cfg', cfgd(Exact='TRUE', Stream='TRUE', MaxLen=60, MaxFlow=0, MaxCol=1, MaxRun=1,
                                                          Variant='"nobuftrim"', Sym='{"w", "s"}'),
                          {'StepCost', 'LinearPerMech', 'LinearWork'}),
+    'aliaswalk':        ('Work', 'MC_Work_alias.cfg', {}, {'StepCost'}),
     'reader_nobuftrim': ('WorkReader', 'MC_WorkReader_negctl.cfg', {}, {'Amortised'}),
     'emitter_lookahead': ('WorkEmit', 'MC_WorkEmit_negctl.cfg', {}, {'EventQueueBound', 'StepCost'}),
     'serializer_anchorscan': ('WorkEmit', 'MC_WorkEmit_negctl.cfg', {'Variant': '"anchorscan"', 'MaxEvents': 40}, {'StepCost'}),
@@ -136,9 +138,9 @@ def catalogue(tier, only=None):
                 add('dump', fam, api)
     for fam in U.DUMP_ALL:
         add('dump', fam, 'dump_all')
-    for fam in U.POSITION_TEXT:                  # a growing node in every structural position, fed to the emitter /
-        add('dump', fam, 'emit_text')            # serializer as events / nodes (a mapping can be a key only this way)
-        if not quick or fam.startswith('first_key'):
+    for fam in U.TEXT_FED:                       # a growing node in every structural position, and pairs of structures that
+        add('dump', fam, 'emit_text')            # grow together, fed to the emitter / serializer as events / nodes
+        if not quick or fam.startswith('first_key') or fam in U.PAIR_TEXT:
             add('dump', fam, 'serialize_text')
     pn = 500 if quick else 2000
     pn += (pn * jitter) // 100
@@ -160,7 +162,7 @@ def catalogue(tier, only=None):
             continue
         sizes = [nested_n, 2 * nested_n, 4 * nested_n] if fam in U.DUMP_NESTED else [pn, 2 * pn, 4 * pn]
         prims.append(('dump', fam, 'dump', sizes))
-    for fam in U.POSITION_TEXT:
+    for fam in U.TEXT_FED:
         if only and fam not in only:
             continue
         prims.append(('dump', fam, 'emit_text', [pn, 2 * pn, 4 * pn]))
@@ -253,7 +255,7 @@ def main(tier, replay=None):
     worst.sort(reverse=True)
     v.cov = {'states': states, 'transitions': trans, 'exhaustive': True,
              'traces_validated_against_impl': len(traces), 'ratio_records_judged': nratio, 'primitive_bound_records_judged': nprim,
-             'load_families': len(U.LOAD), 'dump_families': len(U.DUMP) + len(U.DUMP_ALL) + len(U.POSITION_TEXT),
+             'load_families': len(U.LOAD), 'dump_families': len(U.DUMP) + len(U.DUMP_ALL) + len(U.TEXT_FED),
              'distinct_nontrivial': len({(t['family'], t['api']) for t in recs}),
              'rule': 'one record per (family, api): call counts at n, 2n, 4n%s under sys.setprofile judged by Trace_Work.tla '
                      '(H_LinearWork, eps = 15%%); primitive lengths (token queue, simple-key table, reader buffer, emitter '
